@@ -96,7 +96,6 @@ func (d c05DrainProc) Process(in, out *frugal.FProtocol) error {
 	if _, err := in.ReadRequestHeader(); err != nil {
 		return err
 	}
-	atomic.AddInt64(d.handled, 1)
 	ft := in.Transport().(*frugal.TFramedTransport)
 	if n := ft.RemainingBytes(); n > 0 {
 		// reads of at most what is left of the frame (io.LimitReader), nothing allocated by frame size
@@ -104,6 +103,7 @@ func (d c05DrainProc) Process(in, out *frugal.FProtocol) error {
 			return err
 		}
 	}
+	atomic.AddInt64(d.handled, 1) // the "handler": runs once the whole request has been read
 	return nil
 }
 func (c05DrainProc) AddMiddleware(frugal.ServiceMiddleware)    {}
@@ -240,6 +240,12 @@ func realSSALine(ping bool) func(args []string) (string, bool) {
 			return "bad-op", true
 		}
 		r := realAccept(unhx(args[0]), chunk, ping)
+		if ping { // oracle only: what Thrift's readers make of the bytes is not modelled
+			if v := ssaOracle(r); v != "" {
+				return r.show(true), false
+			}
+			return "held", true
+		}
 		return r.show(ping), ssaOracle(r) == ""
 	}
 }
